@@ -43,11 +43,13 @@ impl Matrix {
 
     /// Make an empty matrix with a certain capacity.
     pub fn with_capacity(nrows: usize, ncols: usize) -> Self {
-        Self::new(
-            Vector::with_capacity(nrows * ncols),
-            nrows as i32,
-            ncols as i32,
-        )
+        // no elements yet, so the shape is that of `Matrix::empty()`; giving the requested shape
+        // to `Matrix::new` panicked for every shape with elements
+        Self {
+            data: Vector::with_capacity(nrows * ncols),
+            nrows: 0,
+            ncols: 0,
+        }
     }
 
     /// Make a matrix with a given shape, initialized with garbage values.
